@@ -610,6 +610,30 @@ type (
 		catInner0
 		A int
 	}
+	// embedded struct types with a lower-case name: encoding/json still
+	// promotes their exported fields, so a lossy field type behind them matters
+	catinnerHidden struct {
+		Recent catHidden
+		Hits   int
+	}
+	catEmbeddedLowerHidden struct {
+		catinnerHidden
+		Count int
+	}
+	catinnerMarshalOnly struct {
+		M catMarshalOnly
+	}
+	catEmbeddedLowerMarshalOnly struct {
+		catinnerMarshalOnly
+		N int
+	}
+	catinnerPtr struct {
+		P *int
+	}
+	catEmbeddedLowerPtr struct {
+		catinnerPtr
+		N int
+	}
 	catMixed struct {
 		Count   int
 		scratch int
@@ -704,6 +728,9 @@ var catalogue = []catEntry{
 	catOf[catEmbedded]("embedded-exported"),
 	catOf[catEmbeddedLower]("embedded-unexported-type"),
 	catOf[catEmbeddedShadow]("embedded-shadowed"),
+	catOf[catEmbeddedLowerHidden]("embedded-unexported-type-with-unexported-only-field"),
+	catOf[catEmbeddedLowerMarshalOnly]("embedded-unexported-type-with-marshal-only-field"),
+	catOf[catEmbeddedLowerPtr]("embedded-unexported-type-with-pointer-field"),
 	catOf[catMixed]("mixed-exported-unexported"),
 	catOf[catNamedMarshalOnly]("named-map-marshal-only"),
 	catOf[catNamedPair]("named-map-custom-pair"),
@@ -850,7 +877,7 @@ func init() {
 		Level: "exploration",
 		Rule: "every struct type of four reflect.StructOf families over leaves {bool,int,uint8,float64,string} (thorough: all 14 integer/float/bool/string kinds) and constructors {[]T,[2]T,map[K]T (K string,int; thorough 10 key kinds),struct{A T},struct{A T; b T},struct{b T}} applied up to depth 2: " +
 			"(A) one field of every such type x {exported, tagged, unexported, json:\"-\"}; (B) that field (exported or tagged \"a\") plus one companion of {exported int, unexported int, string with the same tag \"a\", json:\"-\" pointer}; " +
-			"(C) three fields over a 6-type (thorough 9) alphabet x {exported, tag a, tag b, unexported, json:\"-\"}^3; (D) pointer/interface/chan/func/complex/bad-map-key fields at depth 0..1, exported or json:\"-\"; plus a hand-written catalogue of 19 types (custom marshal pairs, marshal-only, pointer-receiver pairs, unexported-only at every nesting, embedded, shadowed, named map types with custom JSON). " +
+			"(C) three fields over a 6-type (thorough 9) alphabet x {exported, tag a, tag b, unexported, json:\"-\"}^3; (D) pointer/interface/chan/func/complex/bad-map-key fields at depth 0..1, exported or json:\"-\"; plus a hand-written catalogue of 22 types (custom marshal pairs, marshal-only, pointer-receiver pairs, unexported-only at every nesting, embedded, shadowed, named map types with custom JSON). " +
 			"Per type: ValidateSpec and ValidateState are called; if either accepts, every value of the type's lattice (zero, all-fields variant 1, all-fields variant 2, each field alone at each of its variants, recursively) goes through json.Marshal/Unmarshal (catalogue: also through a real modeling.Component SaveCheckpoint/LoadCheckpoint, and Builder.Build must agree with ValidateState) and must come back DeepEqual; types containing an unexported-only struct without custom JSON must be rejected. Each type is a distinct case.",
 		Sharded:     true,
 		MinOutcomes: 12,
